@@ -248,6 +248,40 @@ def _uf_batch(args, dims, *, name, out_avals):
 
 batching.primitive_batchers[uf_p] = _uf_batch
 
+UF_MODEL = [None]  # z3 model of the counterexample being replayed: the abstract function is realised by the model's interpretation
+
+
+@uf_p.def_impl
+def _uf_impl(*args, name, out_avals):
+    from fractions import Fraction
+    model = UF_MODEL[0]
+    if model is None:
+        raise RuntimeError(f"uf[{name}] executed eagerly without a model (abstract function leaked outside tracing)")
+    flat = []
+    for a in args:
+        if hasattr(a, "dtype") and jnp.issubdtype(a.dtype, jax.dtypes.prng_key):
+            a = jr.key_data(a)
+        a = np.asarray(a)
+        k = S.kind(a.dtype)
+        for x in a.reshape(-1).tolist():
+            flat.append(z3.BoolVal(bool(x)) if k == "b" else (z3.IntVal(int(x)) if k == "i" else z3.RealVal(str(Fraction(float(x))))))
+    sym = S.Sym()
+    outs = sym.uf_apply(name, flat, out_avals, constrain=False)
+    res = []
+    for o, av in zip(outs, out_avals):
+        k = S.kind(av.dtype)
+        vals = np.zeros(av.shape, dtype=np.float64 if k == "f" else (bool if k == "b" else np.int64))
+        for idx in np.ndindex(*av.shape):
+            v = model.eval(o[idx], model_completion=True)
+            if k == "b":
+                vals[idx] = z3.is_true(v)
+            elif k == "i":
+                vals[idx] = v.as_long()
+            else:
+                vals[idx] = float(Fraction(v.numerator_as_long(), v.denominator_as_long())) if z3.is_rational_value(v) else 0.0
+        res.append(jnp.asarray(vals.astype(av.dtype) if k != "i" else vals.astype(np.int64).astype(av.dtype)))
+    return res
+
 
 def uf_call(name, out_tree_example, *args):
     """Uninterpreted function `name` of all leaves of args, returning a pytree shaped like the example."""
